@@ -24,6 +24,13 @@ def queries(ctx):
                     unwind=max(kk, 3) + 1, object_bits=10, units=[U, "parsec/class/list.h"], info=dict(info, bounds={"NR": nr, "KK": kk, "PRE": pre}),
                     tiers=tiers, timeout=timeout, slow=slow))
     both = ("quick", "thorough")
+    for step, nm in ((0, "step_child_reports"), (1, "step_becomes_idle"), (2, "step_down_arrives")):
+        qs.append(Q(nm, ["hr.c", "clsstub.c", "repo:parsec/class/parsec_list.c"], defs=["STEP=%d" % step, "NMAXN=7"], unwind=4, object_bits=10, units=[U],
+                    info={"symbolic": ["tree size NN in 1..7 and rank", "monitor state: own sent/received, wave accumulators, previous wave recorded at the root (incl. the initial -1), missing children, busy/idle",
+                                       "contents of the arriving UP / DOWN message"],
+                          "functions": ["parsec_termdet_fourcounter_send_up_messages (root decision rule, non-root forwarding)", "_msg_up", "_msg_down", "_check_state_message_received", "_check_state_workload_changed",
+                                        "_taskpool_addto_nb_tasks", "_msg_dispatch", "topology_*"],
+                          "stubs": info["stubs"], "bounds": {"NN": "1..7", "counters": "<= 100000"}}, tiers=both, timeout=600))
     qs.append(Q("delayed", ["hd.c", "clsstub.c", "repo:parsec/class/parsec_list.c"], unwind=10, object_bits=10, units=[U, "parsec/class/list.h"],
                 info={"symbolic": ["tree size NN in 2..3", "number of early UP messages and their counters", "registered / unknown taskpool at each arrival", "position of a message for another taskpool"],
                       "functions": ["parsec_termdet_fourcounter_msg_dispatch (delay branch)", "_taskpool_ready (replay loop)", "_msg_dispatch_taskpool", "_msg_up", "_send_up_messages"],
@@ -32,6 +39,7 @@ def queries(ctx):
     add(2, 5, 2, 1, 1, 1, both)
     add(2, 5, 1, 0, 0, 1, both)
     add(2, 5, 3, 1, 0, 0, both)
+    add(3, 6, 0, 0, 0, 1, both, 900, True)
     if ctx.thorough:
         add(2, 9, 0, 1, 1, 1, ("thorough",), 3000, True)
         add(2, 8, 1, 1, 1, 1, ("thorough",), 3000, True)
@@ -43,6 +51,11 @@ def queries(ctx):
     return qs
 def mutants(ctx):
     return [
+      Mutant("root_ignores_previous_received", U, "                (tpm->last_acc_received_at_root == tpm->acc_received) &&\n", "", queries=["step_child_reports", "step_becomes_idle"]),
+      Mutant("root_ignores_balance", U, "                (tpm->last_acc_received_at_root == tpm->acc_received) &&\n                (tpm->acc_sent == tpm->acc_received);", "                (tpm->last_acc_received_at_root == tpm->acc_received);", queries=["step_child_reports", "step_becomes_idle"]),
+      Mutant("up_drops_own_received", U, "    tpm->acc_received += tpm->messages_received;\n", "", queries=["step_child_reports", "step_becomes_idle"]),
+      Mutant("down_forwarded_to_first_child_only", U, "    for(i = 0; i < parsec_termdet_fourcounter_topology_nb_children(tp); i++) {\n        PARSEC_DEBUG_VERBOSE(10, parsec_debug_output, \"TERMDET-4C:\\tSending DOWN message with result %d to rank %d\",\n                             msg->result,",
+             "    for(i = 0; i < parsec_termdet_fourcounter_topology_nb_children(tp) && i < 1; i++) {\n        PARSEC_DEBUG_VERBOSE(10, parsec_debug_output, \"TERMDET-4C:\\tSending DOWN message with result %d to rank %d\",\n                             msg->result,", queries=["step_down_arrives"]),
       Mutant("root_accepts_first_wave", U, "msg_down.result = (tpm->last_acc_sent_at_root == tpm->acc_sent) &&\n                (tpm->last_acc_received_at_root == tpm->acc_received) &&\n                (tpm->acc_sent == tpm->acc_received);",
              "msg_down.result = (tpm->acc_sent == tpm->acc_received);", queries=["n2_k6_p0"]),
       Mutant("received_counted_at_start", U, "        PARSEC_DEBUG_VERBOSE(10, parsec_debug_output, \"TERMDET-4C:\\tProcess changed state for BUSY_WAITING_FOR_PARENT (message start)\");\n    }\n",
